@@ -26,7 +26,8 @@ def digest(res):
     for r in res:
         def t(n):
             if n.is_leaf:
-                return '%s:%s' % (n.cat, n.word)
+                # the whole token: a leaf carries the token of ITS sentence and position, not an equal-looking word of another
+                return '%s:%s:%s' % (n.cat, n.word, sorted((k, str(v)) for k, v in dict(n.token).items()))
             return '(%s %s %s%s %s)' % (n.cat, n.op_string, n.op_symbol, '' if n.is_unary else ('<' if n.head_is_left else '>'),
                                          ' '.join(t(c) for c in n.children))
         parts.append('%r %s' % (float(r.score), t(r.tree)))
@@ -71,7 +72,11 @@ def make_document(rng, kind, nsent):
         n = rng.choice([1, 2, 2, 3, 3, 4, 5])
         if s == 1:
             n = max_length + rng.choice([1, 2])          # too long: must yield its own placeholder only
-        toks = [Token.of_word('s%dw%d' % (s, i)) for i in range(n)]
+        # word forms repeat within and across the sentences of a document; what tells two occurrences apart is the rest of the
+        # token (lemma = sentence and position, the other attributes at random)
+        toks = [Token(word=rng.choice(['the', 'dog', 'saw', 'Apple', 'shares']), lemma='s%dw%d' % (s, i), pos=rng.choice(['NN', 'NNP', 'VBD']),
+                      entity=rng.choice(['O', 'I-ORG']), chunk=rng.choice(['B-NP', 'I-NP'])) if rng.random() < 0.8 else Token.of_word('s%dw%d' % (s, i))
+                for i in range(n)]
         tag8, dep8 = pf.make_scores(rng, n, len(lex), rng.choice(['ties', 'small', 'wide']))
         doc.append(toks)
         scores.append(ScoringResult(np.array(tag8, dtype=np.float32) / 8, np.array(dep8, dtype=np.float32) / 8))
